@@ -31,8 +31,9 @@ CHECKS = {
    design="4.C04", note="trusted base: the comparison function of the reference model (validated against the RFC 9535 2.3.5.3 comparison table at start-up); universe restricted to finite numbers within +-(2^53-1)",
    technique="exhaustive enumeration of the finite comparison table (all value pairs x operators x operand forms) against a reference model, plus model-independent algebraic laws"),
  "C11": dict(
-   text="Exhaustive cube: every (start, end, step) over absent / every integer of a range / the I-JSON extremes, times every array length up to a bound, in five contexts (root, below a name, "
-        "below a wildcard, under a descendant segment, non-array targets), through the parser and through programmatically built queries; expected index sequence from the RFC 2.3.4.2.2 "
+   text="Exhaustive cube: every (start, end, step) over absent / every integer of a range / the I-JSON extremes, times every array length up to a bound, in seven contexts (root, below a name, "
+        "below a wildcard, under a descendant segment, non-array targets, index segments of singular queries in comparisons, slices applied to the current node of a filter "
+        "and consumed by count() or a following segment), through the parser and through programmatically built queries; expected index sequence from the RFC 2.3.4.2.2 "
         "pseudo-code transcribed with 128-bit arithmetic; node identity, order and path compared; per-case wall-clock horizon for termination.",
    design="4.C11", note="trusted base: slice_indices in the reference model (literal transcription of the RFC pseudo-code, checked against the RFC slice examples at start-up); bounds: parameter range and array lengths in the evidence file",
    technique="exhaustive enumeration of the slice/index parameter cube x array lengths x contexts against the RFC pseudo-code"),
@@ -89,7 +90,10 @@ CHECKS = {
         "agree position by position and leave the document unchanged. (2) Histories: every ordered pair of a 32-operation alphabet (chosen to collide on anything a cache could key on) "
         "in its own fresh process, and every window of length w in one long-lived process, each result compared with the same operation run first in a fresh process. (3) Schedules: "
         "stateless depth-first exploration of every interleaving with at most k preemptions (iterated 0..k) of two or three real threads sharing one parsed query and one document, "
-        "with scheduling points hooked into every evaluation step of jsonpath-rust; each thread's results must equal the operations run alone; failing schedules are replayed twice.",
+        "with scheduling points hooked into every evaluation step of jsonpath-rust (4 general harnesses + one harness per evaluation construct with the query parsed afresh for every "
+        "execution; every exploration job runs in a fresh subprocess in deterministic order); each thread's results must equal the operations run alone; failing schedules are reproduced in "
+        "two more fresh processes. (1b) the string entry points on every edge of a nodelist-transition BFS; (2c) queries interleaved with in-place updates of a live document against an equal "
+        "freshly built document. A supplementary free-running multi-thread pass is sampled, can only raise true alarms and is not counted as coverage.",
    design="4.C12", note="scheduling points exist only at the cfg-guarded hooks (entry of every Query::process impl, each filter item, between regex compilation and matching); Send + Sync is a type-check side condition (mc/static_assert); bounds: operation alphabet, window length, harness bodies, preemption bound",
    technique="stateless preemption-bounded schedule exploration of the real code under a controlled scheduler, plus exhaustive operation-history enumeration against a fresh-process baseline"),
  "C13": dict(
@@ -100,8 +104,9 @@ CHECKS = {
    design="4.C13", note="differential (no model needed for the verdict); bounds: abstract query set, k, document panel",
    technique="exhaustive enumeration of spelling variants up to k deviations with a differential oracle against the canonical spelling"),
  "C15": dict(
-   text="Lock-step evaluation at three implementations of the Queryable trait (serde_json::Value, an association-list view with one number type, a strict-accessor view) converted from the "
-        "same documents preserving member order: the generated query set x panel, the whole comparison table packed into one document, the slice cube; paths and serialized values must be identical.",
+   text="Lock-step evaluation at five views of the same documents through all three trait entry points (query, query_with_path, query_only_path): serde_json::Value, an association-list "
+        "view with one number type, a strict-accessor view, a hash-consed view in which equal sub-documents share storage, and a view presenting members in sorted order (compared as "
+        "multisets): the generated query set x panel (incl. JSON-Pointer look-alike documents), the whole comparison table packed into one document, the slice cube; paths and serialized values must be identical.",
    design="4.C15", note="the alternative views strip key quotes exactly like the Value implementation (the trait leaves it to the implementor); extension functions are Value-only and excluded",
    technique="exhaustive enumeration of the query/document spaces of the other checks, run in lock-step over several trait implementations (differential)"),
 }
